@@ -478,6 +478,11 @@ fn handle_ok(live: &[Option<LiveH>], m: &Model, op: &Op) -> bool {
                     return false;
                 }
             }
+            // the same file under another name: a link to it that the call touches or contains
+            let alias = m.t.nodes.iter().any(|(k, n)| n.kind == Kind::Link && n.target.as_deref() == Some(l.path.as_str()) && (k == a || is_under(k, a)));
+            if alias {
+                return false;
+            }
         }
     }
     true
